@@ -1013,6 +1013,11 @@ class GroupCoordinator(BaseCoordinator):
             except Errors.KafkaError as err:
                 if not err.retriable:
                     raise
+                elif self._closing.done() and self.coordinator_id is None:
+                    # While closing we no longer look for a new coordinator
+                    # (see `ensure_coordinator_known()`), so retrying will
+                    # never succeed.
+                    raise
                 else:
                     # wait backoff and try again
                     await asyncio.sleep(self._retry_backoff_ms / 1000)
